@@ -233,6 +233,80 @@ def ell_member(E, z, m):
     return z3.And(a >= 0, ss <= a * a)
 
 
+def ell_member_now(center, sigma, alpha, z, m):
+    """z in the ellipsoid a region displays NOW (its current center / sigma / alpha fields)."""
+    from pyvc import libmodel as L
+    Q = libcalls.mat_uf("sqrtm", libcalls.mat_uf("inv", L.as_arr(sigma)))
+    c = L.as_arr(center).flat()
+    d = S.vsub(z, c)
+    comps = [S.dot([Q.a[i, j] for j in range(m)], d) for i in range(m)]
+    ss = sum((x * x for x in comps[1:]), comps[0] * comps[0])
+    a = V.R(alpha.flat()[0] if hasattr(alpha, "flat") else alpha)
+    return z3.And(a >= 0, ss <= a * a)
+
+
+@task("C10", "Ell.history[is_covered, m=2, K=2, slack=zero: construct, use, update, use]")
+def _ell_cov_history(t):
+    """As for rectangles: both ellipsoids are built by the real constructor, the predicate is used once, the first region is
+    updated by the real `update`, and the second verdict must be the specification's verdict for the ellipsoid now displayed."""
+    from pyvc.values import SObj
+    from pyvc.harness import cls_ref
+    from pyvc.symexec import find_obj
+    m, K = 2, 2
+    t.mode = "unrolled m=2 K=2, call sequence on one region object"
+    order = t.inp("order", InOrder("o", K, m))
+    O = t.inputs["order"]
+    c1, S1, a1 = t.inp("c1", InArr("c1", (m,))), t.inp("S1", InArr("S1", (m, m))), t.inp("a1", InReal("a1"))
+    c2, S2, a2 = t.inp("c2", InArr("c2", (m,))), t.inp("S2", InArr("S2", (m, m))), t.inp("a2", InReal("a2"))
+    mean, cov, sc = t.inp("mean", InArr("mu", (m,))), t.inp("cov", InArr("cov", (m, m))), t.inp("scale", InArr("sc", ()))
+    e1, e2 = SObj(cls_ref(CR, "EllipsoidalConfidenceRegion")), SObj(cls_ref(CR, "EllipsoidalConfidenceRegion"))
+    made = [p for p in t.run(CR, "EllipsoidalConfidenceRegion.__init__", [m, c1, S1, a1], self_val=e1) if p.kind == "return"]
+    if len(made) == 1:
+        made = [p for p in t.run(CR, "EllipsoidalConfidenceRegion.__init__", [m, c2, S2, a2], self_val=e2, after=made[0]) if p.kind == "return"]
+    if len(made) != 1:
+        t.prove("constructors_return_on_one_path", False)
+        return
+    first = [p for p in t.run(CR, "EllipsoidalConfidenceRegion.is_covered", [None, order, e1, e2, 0], after=made[0]) if p.kind == "return"]
+    n0 = len(t.ctx.cvx)
+    second = []
+    for p in first[:2]:
+        for q in t.run(CR, "EllipsoidalConfidenceRegion.update", [mean, cov, sc], self_val=e1, after=p):
+            if q.kind == "return":
+                second += t.run(CR, "EllipsoidalConfidenceRegion.is_covered", [None, order, e1, e2, 0], after=q)
+    t.prove("history_reaches_the_second_use", z3.BoolVal(len(second) > 0))
+    t.must_fail()
+    t.no_raise(second)
+    W = S.rows_of(O)
+    proved = {}
+
+    def goal(p):
+        if p.kind != "return":
+            return False
+        cur, oth = find_obj(p.st, e1.oid), find_obj(p.st, e2.oid)
+        COVERED = z3.Bool("covered_spec_now")
+        spec_of = lambda z, zp: z3.And(ell_member_now(cur.fields["center"], cur.fields["sigma"], cur.fields["alpha"], z, m),
+                                       ell_member_now(oth.fields["center"], oth.fields["sigma"], oth.fields["alpha"], zp, m),
+                                       *[S.dot(W[k], S.vsub(zp, z)) >= 0 for k in range(K)])
+        links = []
+        for rec in cvx_for_path(t, p):
+            i = [k for k, r_ in enumerate(t.ctx.cvx) if r_ is rec][0]
+            if i < n0:
+                continue
+            vs = rec["vars"][-2 * m:]
+            if len(vs) != 2 * m:
+                return False
+            spec = spec_of(vs[:m], vs[m:2 * m])
+            if i not in proved:
+                r = t.prove("program_of_the_second_use_is_the_spec_for_the_ellipsoid_now_displayed#%d" % len(proved), rec["constraints"] == spec,
+                            assumptions=rec["pc"][len(t.pre):])
+                proved[i] = r is not None and r["status"] == "proved"
+            if proved[i]:
+                own = rec["pc"][len(t.pre):]
+                links.append(z3.Implies(z3.And(*own) if own else z3.BoolVal(True), rec["feas"] == COVERED))
+        return z3.Implies(z3.And(*links), V.Bz(p.value) == COVERED)
+    t.prove_paths("second_verdict_is_the_specification_verdict_for_the_ellipsoid_now_displayed", second, goal)
+
+
 def _ell_cov(m, K, slack_kind, tier="quick"):
     @task("C10", "Ell.is_covered[m=%d,K=%d,slack=%s]" % (m, K, slack_kind), tier=tier)
     def _t(t):
